@@ -677,7 +677,8 @@ def run(ctx):
         for b in ctx.monitor_stream("S-children-err", HEADER, "tgraph * Z", "c18_children_err_check", ecases)[:3]:
             report(ewhere[b], "childrenerr", "notify_task_completion raised RuntimeError although no child had started")
         for b in ctx.monitor_stream("S-ready", HEADER, "tgraph * Z * bool", "c18_ready_check", rcases)[:3]:
-            report(rwhere[b], "ready", "is_ready_to_run: a regular task needs ALL parents complete, a join ONE, and the state "
+            report(rwhere[b], "ready", "is_ready_to_run: a regular task needs ALL parents complete, a join ONE complete and none still alive "
+                                       "(every parent complete or CANCELLED), and the state "
                                        "SCHEDULED / PREEMPTED")
         for b in ctx.monitor_stream("S-releasable", HEADER, "tgraph * list Z", "c18_releasable_check", lcases)[:3]:
             report(lwhere[b], "releasable", "get_releasable_tasks: exactly the VIRTUAL / SCHEDULED / PREEMPTED tasks whose every "
